@@ -89,6 +89,18 @@ CLAIMS["C10"] = dict(
     technique="truth-table evaluation of the mode switch + backward provenance (def-use) of path arguments per branch + sink enumeration with root classification + handler error-discipline over the call graph",
     ref="3/C10",
 )
+CLAIMS["C11"] = dict(
+    text="Decides the mechanism that keeps a shared core complete over any generation history: (1) _update_registry is a read-modify-"
+    "write of one dict (the loaded registry is the one updated under the client key and dumped), every return is derived from the union "
+    "over all clients' codes, the write can only be skipped under an 'entry unchanged' guard, and emit regenerates both the alias code "
+    "and the exported alias names from that union, guarded only by (client name given and core is shared); the registry key at both "
+    "generator call sites is the full dotted output package; (2) the 'core is shared' predicate is evaluated - by a path-algebra "
+    "interpreter over its AST - on symbolic layouts (client depth 1..3 x core outside the client at depth 1..4, sibling-in-parent, "
+    "embedded) and must be true whenever the core lies outside the client package; (3) the core/exception emitters never delete. "
+    "Importability after a concrete history is not executed.",
+    technique="def-use / return-value provenance in the registry update + exhaustive abstract evaluation of the sharedness predicate over symbolic directory layouts + no-destructive-call table",
+    ref="3/C11",
+)
 
 NOT_APPLICABLE = {}
 
